@@ -422,6 +422,31 @@ async fn grpc_stream(
         Decision::Status(s) => 1 + (s % 14),
         _ => 0,
     };
+    // how a gRPC server reports a failure: 0 headers + trailers, 1 "Trailers-Only" (one HEADERS frame carrying
+    // grpc-status, END_STREAM - the standard form for immediate errors), 2 a plain HTTP error from a proxy in front
+    let form = if grpc_status != 0 { col.sched.lock().choices.choose(3) } else { 0 };
+    if form == 1 {
+        *col.fired.lock().unwrap().entry("grpc_trailers_only_error").or_insert(0) += 1;
+        let response = http::Response::builder()
+            .status(200)
+            .header("content-type", "application/grpc")
+            .header("grpc-status", grpc_status.to_string())
+            .header("grpc-message", "simulated failure")
+            .body(())
+            .unwrap();
+        let _ = respond.send_response(response, true);
+        entry.done_at = Some(col.sched.now());
+        col.log.lock().unwrap().push(entry);
+        return;
+    }
+    if form == 2 {
+        *col.fired.lock().unwrap().entry("grpc_http_error_status").or_insert(0) += 1;
+        let response = http::Response::builder().status(503).body(()).unwrap();
+        let _ = respond.send_response(response, true);
+        entry.done_at = Some(col.sched.now());
+        col.log.lock().unwrap().push(entry);
+        return;
+    }
     let response = http::Response::builder()
         .status(200)
         .header("content-type", "application/grpc")
